@@ -130,8 +130,8 @@ func famC02(g *Gen, o *Out, n int, thorough bool) {
 			stride = pend / 300
 		}
 		pickRd := func() string {
-			if ver == 2 {
-				return scanReaders[g.pick(2)]
+			if ver == 2 || roots == "nil" || roots == "-" {
+				return scanReaders[g.pick(2)] // the CARv1 reader documents: CARv1 input with at least one root
 			}
 			return scanReaders[g.pick(len(scanReaders))]
 		}
